@@ -66,6 +66,9 @@ func main() {
 			os.Exit(2)
 		}
 		gen(g)
+		for _, f := range genExtras[id] {
+			f(g)
+		}
 	case "run":
 		sc := bufio.NewScanner(os.Stdin)
 		sc.Buffer(make([]byte, 1<<20), 1<<28)
@@ -104,3 +107,6 @@ func main() {
 }
 
 var gens = map[string]func(*G){}
+
+// further generators of a property, run after gens[id] (large-scale probes)
+var genExtras = map[string][]func(*G){}
